@@ -836,3 +836,16 @@ _c01_validators = contracts
 def contracts():
     from contracts import c12 as _c12
     return _c01_validators() + constructor_contracts() + [_c12.setup_params_contract(["C01/"])]
+
+
+# the other routes by which a value reaches a parameter: class-level assignment (metaclass __setattr__:
+# exactly one descriptor __set__) and param.update (Parameters._update: every key through setattr)
+_c01_base2 = contracts
+
+
+def contracts():
+    from contracts import c13 as _c13, c05 as _c05
+    extra = [_c13.metaclass_setattr_contract(), _c05.update_contract()]
+    for c in extra:
+        c.prop = PROP
+    return _c01_base2() + extra
